@@ -10,6 +10,7 @@
 //                                   per point `o` or the dereferenced coordinates x:y,x:y,.. in order (what the sampler reads)
 //   res  vt s w h dw dh a b c d e f resample_pixels(src w*h, dst dw*dh, matrix3x2<double>(a/8,..,f/8), s = b|n): all dst channel values row-major
 //                                   (dst pre-filled with 7), then `|`, then the same from a direct loop  sample(s, src, transform(m, (x,y)), dst(x,y))
+//   resf vt s w h dw dh a..f (bits)  the same with an arbitrary matrix3x2<double> given as six bit patterns (sample points off the grid)
 //   rsz  vt s w h dw dh             resize_view(src, dst): all dst channel values
 //   mmul a.. (12 doubles as bits)   matrix product: 6 bit patterns
 //   minv a.. (6 bits)               inverse: 6 bit patterns
@@ -162,6 +163,13 @@ int main() {
         }
         if (w.size() == 13 && w[0] == "res") {
             double m[6]; for (int k = 0; k < 6; ++k) m[k] = (double)I(7 + k) / 8.0;
+#define X(name, S) if (w[1] == name) { if (w[2] == "b") return res<S, gil::bilinear_sampler>(I(3), I(4), I(5), I(6), m); \
+                                       return res<S, gil::nearest_neighbor_sampler>(I(3), I(4), I(5), I(6), m); }
+            SRCS(X)
+#undef X
+        }
+        if (w.size() == 13 && w[0] == "resf") {
+            double m[6]; for (int k = 0; k < 6; ++k) m[k] = d_of(w[7 + k]);
 #define X(name, S) if (w[1] == name) { if (w[2] == "b") return res<S, gil::bilinear_sampler>(I(3), I(4), I(5), I(6), m); \
                                        return res<S, gil::nearest_neighbor_sampler>(I(3), I(4), I(5), I(6), m); }
             SRCS(X)
